@@ -120,6 +120,34 @@ def run(ctx):
             ctx.violated("C07.1", fn, "edit mutates a structure below the editable levels (%s): hash-bearing data must stay byte-for-byte" % "/".join(deep[0]),
                          ins.node)
             continue
+        if ins.how == "update" and ins.value is not None:
+            # d.update(src): the write set is the key set of src
+            src_objs = pt.pts(ins.value, fn)
+            req = request_params if "request_params" in dir() else set()
+            direct_request = isinstance(ins.value, ast.Name) and ins.value.id in fn.params and any(
+                isinstance(b.get(ins.value.id), ast.Name) for c_, call_, b in ctx.res.callsites_of(fn) if c_ is not None) and False
+            keys = set()
+            known = bool(src_objs)
+            for so in src_objs:
+                if so.kind not in ("dict",):
+                    known = False
+                ks = pt.keys_of(so)
+                if any(k is None or not isinstance(k, str) or k == "*" for k in ks):
+                    known = False
+                keys |= {k for k in ks if isinstance(k, str)}
+            if known and keys and keys <= level_keys:
+                ctx.holds("C07.1", fn, "update from a dictionary built with the keys %s only, all editable at this level" % sorted(keys), ins.node)
+                for k in sorted(keys):
+                    pass
+                continue
+            if known and keys - level_keys:
+                ctx.violated("C07.1", fn, "update writes key %r, which is not an editable field at this level (editable: %s)" % (sorted(keys - level_keys)[0], sorted(level_keys)), ins.node)
+                continue
+            if isinstance(ins.value, ast.Name) and ins.value.id in fn.params and fn is edit:
+                ctx.violated("C07.1", fn, "bulk mutation (update) of the decoded metafile with the request itself: the write set is not limited to the named fields", ins.node)
+                continue
+            ctx.undecided("C07.1", fn, "bulk mutation (update) of the decoded metafile from `%s`, whose key set could not be determined" % norm(ins.value), ins.node)
+            continue
         if ins.how in ("update", "aug", "append", "extend"):
             ctx.violated("C07.1", fn, "bulk mutation (%s) of the decoded metafile: the write set is not limited to the named fields" % ins.how, ins.node)
             continue
@@ -363,6 +391,20 @@ def filter_table(ctx, pt, edit, filt, stores):
     # the filter call dominates every store of the editor
     calls = [n for n in own_nodes(edit.node) if isinstance(n, ast.Call) and any(t[0] == "pkg" and t[1] is filt for t in ctx.res.call_targets(n, edit))]
     if not calls:
+        # the filter may run in a function the editor hands the request to (a method of an editor object ...)
+        elsewhere = [(f_, n_) for f_ in C.reach(ctx, [edit], allow_approx=False) if f_ is not filt for n_ in own_nodes(f_.node)
+                     if isinstance(n_, ast.Call) and any(t is filt for t in C.targets_of(ctx, f_, n_))]
+        if elsewhere:
+            f_, n_ = elsewhere[0]
+            gf = C.cfg_of(f_)
+            fn_ = C.stmt_node(ctx, f_, n_)
+            later = [x for x in own_nodes(f_.node) if isinstance(x, (ast.Assign, ast.AugAssign, ast.Delete)) and any(isinstance(t, ast.Subscript) for t in (x.targets if isinstance(x, (ast.Assign, ast.Delete)) else [x.target]))]
+            early = [x for x in later if not gf.dominates(fn_, C.stmt_node(ctx, f_, x))]
+            if early:
+                ctx.violated("C07.3", f_, "a store (`%s`) can execute before the request filter runs in %s" % (norm(early[0])[:50], f_.name), early[0])
+            else:
+                ctx.undecided("C07.3", f_, "the request filter runs in %s, which edit_torrent reaches through a call; that every store of the edit comes after it is decided only inside that function" % f_.qualname, n_)
+            return
         ctx.violated("C07.3", edit, "edit_torrent does not run the request filter: None (unnamed) and '' (remove) are stored literally")
         return
     cn = C.stmt_node(ctx, edit, calls[0])
